@@ -50,8 +50,9 @@ func (o *Obligation) Script() string {
 	for _, l := range ex.ctx.typeLines {
 		b.WriteString(l + "\n")
 	}
+	var defs strings.Builder
 	for _, l := range ex.ctx.lines {
-		b.WriteString(l + "\n")
+		defs.WriteString(l + "\n")
 	}
 	var body strings.Builder
 	for i := 0; i < o.NAssume && i < len(ex.assumes); i++ {
@@ -67,7 +68,11 @@ func (o *Obligation) Script() string {
 	// quantifies (ground instances are asserted where the terms are created);
 	// leaving them out keeps ground queries decidable, so refutations come back
 	// as sat with a model rather than unknown.
-	if strings.Contains(bs, "(forall ") || strings.Contains(bs, "(exists ") {
+	ds := defs.String()
+	quantified := strings.Contains(bs, "(forall ") || strings.Contains(bs, "(exists ") || strings.Contains(ds, "(forall ") || strings.Contains(ds, "(exists ")
+	b.WriteString(ex.slAtDecls(quantified))
+	b.WriteString(ds)
+	if quantified {
 		for _, a := range ex.axioms {
 			b.WriteString("(assert " + a.String() + ")\n")
 		}
